@@ -3,7 +3,8 @@
 
    History: stride-dim0 (F-C16-1) and writeconfig-wildcard (F-C16-3) were repaired in /repo
    (80472758, e0571e51); their fields of [impl_quirks] are false now and their former witnesses are kept
-   below as REGRESSION examples (they must evaluate the repaired way).  Open: call-args-ignored (F-C16-2).
+   below as REGRESSION examples (they must evaluate the repaired way); so is the rank test of expression
+   reads (2bbe1c40).  Open: call-args-ignored (F-C16-2).
    When that one is repaired: set q_callargs := false in Model.impl_quirks, turn quirk_callargs into a
    regression example, and replace impl_differs_from_spec / impl_decides_matchrel by the unconditional
    equality (impl_quirks = spec_quirks then holds by reflexivity). *)
@@ -32,6 +33,25 @@ Example regression_wcfg :
   match_stmt impl_quirks (WriteConfig "Cfg" "a" (Const (CV 1 1))) (PWriteConfig "_" "b") = false /\
   MatchS (PWriteConfig "_" "a") (WriteConfig "Cfg" "a" (Const (CV 1 1))) true.
 Proof. repeat split. apply match_stmt_dec. reflexivity. Qed.
+
+(* rank test of expression reads (/repo 2bbe1c40, PatternMatch.match_idx): the pattern x[0] no longer
+   matches the whole-buffer read x nor x[0, 5]; x, x[_] and x[_, _] still match a read of any rank; the
+   indices of STATEMENT patterns keep the zip truncation (x[0] = 0.0 matches the scalar x = 0.0) *)
+Example regression_read_rank :
+  let c := fun k => Const (CV k 1) in let pc := fun k => PConst (CV k 1) in
+  match_e impl_quirks (Read "x" []) (PRead "x" [pc 0%Z]) = false /\
+  match_e impl_quirks (Read "x" [c 0%Z; c 5%Z]) (PRead "x" [pc 0%Z]) = false /\
+  match_e impl_quirks (Read "x" [c 0%Z]) (PRead "x" [pc 0%Z]) = true /\
+  match_e impl_quirks (Read "x" [c 0%Z; c 5%Z]) (PRead "x" [pc 0%Z; PE_Hole]) = true /\
+  match_e impl_quirks (Read "x" [c 0%Z; c 5%Z]) (PRead "x" []) = true /\
+  match_e impl_quirks (Read "x" [c 0%Z; c 5%Z]) (PRead "x" [PE_Hole]) = true /\
+  match_e impl_quirks (Read "x" []) (PRead "x" [PE_Hole; PE_Hole]) = true /\
+  ~ MatchE (PRead "x" [pc 0%Z]) (Read "x" []) /\
+  ~ MatchE (PRead "x" [pc 0%Z]) (Read "x" [c 0%Z; c 5%Z]) /\
+  match_stmt impl_quirks (Assign "x" [] (c 0%Z)) (PAssign "x" [pc 0%Z] (pc 0%Z)) = true.
+Proof.
+  repeat split; intros H; apply match_e_dec in H; discriminate H.
+Qed.
 
 (* ------------------------------------------------------------------ *)
 (** * the open deviation: call arguments are ignored *)
